@@ -114,6 +114,11 @@ func ints(l []int) string {
 //      no jitter; the configuration is run c.rounds times, the first bad round (else the last) is reported
 //   4  BURST, the producers fill their channel, wait for a common start signal given right after the
 //      call, and close (all the inputs are closed at nearly the same moment)
+//   5  PRODUCERS AHEAD: as 0, but the combinator is called only when every producer has filled the buffer
+//      of its channel and is blocked in its next send (a combinator must not forward anything in the
+//      caller's goroutine, before it has returned the output nobody can receive from)
+//   6  NIL RESULTS (fmap over a function returning a channel): as 0, but the function returns a nil channel
+//      for every item divisible by 3; a nil result is an item like any other (reported as 0)
 func quietEnv(env int) bool { return env == 2 || env == 4 }
 
 // start builds the environment of one run and calls the combinator.
@@ -127,6 +132,27 @@ func start(c config) []<-chan int {
 	}
 	barrier := make(chan struct{})
 	mk := func(j int) chan int { return make(chan int, c.ins[j].cap) }
+	// ahead (env 5): wait (at most 2 ms) until full() holds, then a moment more for the blocked send
+	ahead := func(full func() bool) {
+		if c.env != 5 {
+			return
+		}
+		dl := time.Now().Add(2 * time.Millisecond)
+		for !full() && time.Now().Before(dl) {
+			runtime.Gosched()
+		}
+		time.Sleep(200 * time.Microsecond)
+	}
+	filled := func(l []chan int) func() bool {
+		return func() bool {
+			for j, ch := range l {
+				if len(ch) < cap(ch) && len(ch) < len(c.ins[j].items) {
+					return false
+				}
+			}
+			return true
+		}
+	}
 	produce := func(j int, ch chan int) { // the producer of input j: its items, then close
 		if feeder {
 			return // the feeder does it
@@ -194,6 +220,7 @@ func start(c config) []<-chan int {
 		if feeder {
 			feed(l, func(chan int) {}, func() {})
 		}
+		ahead(filled(l))
 		return l
 	}
 	recvOnly := func(l []chan int) []<-chan int {
@@ -229,6 +256,7 @@ func start(c config) []<-chan int {
 				close(o)
 			}()
 		}
+		ahead(func() bool { return filled(l)() && (len(o) == cap(o) || len(o) == len(l)) })
 		return o
 	}
 	rf := fork(c.seed, 1)
@@ -239,6 +267,9 @@ func start(c config) []<-chan int {
 	case "fmap_cc": // g(x) = a closed channel holding x+1000; flattened again by the consumer below
 		cc := callFmapCC(func(x int) <-chan int {
 			jit(rf)
+			if c.env == 6 && x%3 == 0 {
+				return nil
+			}
 			ch := make(chan int, 1)
 			ch <- x + 1000
 			close(ch)
@@ -247,6 +278,10 @@ func start(c config) []<-chan int {
 		flat := make(chan int)
 		go func() {
 			for ch := range cc {
+				if ch == nil {
+					flat <- 0
+					continue
+				}
 				for v := range ch {
 					flat <- v
 				}
@@ -293,6 +328,7 @@ func start(c config) []<-chan int {
 				jit(r)
 				close(ch)
 			}()
+			ahead(func() bool { return len(ch) == cap(ch) || len(ch) == len(a) })
 			return ch
 		}
 		var pre []chan int // feeder environments: the channels exist (and are being fed) before g hands them out
@@ -430,8 +466,22 @@ func run(c config, timeout time.Duration) (outs [][]int, closed []int, leaked, t
 	if quietEnv(c.env) && c.rounds > 1 {
 		n = c.rounds
 	}
+	nout := 1
+	if kindOf[c.form] == "dup" {
+		nout = 2
+	}
 	for k := 0; k < n; k++ {
-		outs, closed, timedout = consume(c, start(c), timeout)
+		// the call itself must return (the combinator may not block in the caller's goroutine)
+		called := make(chan []<-chan int, 1)
+		go func() { called <- start(c) }()
+		tm := time.NewTimer(timeout)
+		select {
+		case oc := <-called:
+			tm.Stop()
+			outs, closed, timedout = consume(c, oc, timeout)
+		case <-tm.C:
+			outs, closed, timedout = make([][]int, nout), make([]int, nout), 1
+		}
 		rounds = k + 1
 		if timedout == 1 || (n > 1 && !good(c, outs, closed)) {
 			break
